@@ -7,9 +7,16 @@ WORDS = ["a", "of", "the", "parser", "übergröße", "naïve", "日本語", "x" 
          "path/to/some/file.txt", "tab\there", "(paren)", "q" * 14, "w" * 22, "I", "wörter"]
 
 
-def text(rnd, tag):
+LATER = "zq"      # every token of a later paragraph of an *item* help text starts with this prefix
+WORDS2 = ["a", "of", "the", "parser", "x" * 31, "y" * 47, "z" * 60, "co-op", "--flag", "q" * 14, "w" * 22, "I", "key_value"]
+
+
+def text(rnd, tag, item=True):
     def words(n):
         return " ".join(rnd.choice(WORDS) for _ in range(n))
+    pre = LATER if item else ""
+    def words2(n):
+        return " ".join(pre + rnd.choice(WORDS2) for _ in range(n)) if item else words(n)
     t = f"P1x{tag} " + words(rnd.randint(1, 14))
     if rnd.random() < 0.3:
         t += "\n " + words(rnd.randint(1, 6))          # hard line break
@@ -22,12 +29,31 @@ def text(rnd, tag):
         pad = (100 - len(first) % 100 - 1) % 100
         t += " " + "k" * pad + " " if pad > 1 else " "
     if rnd.random() < 0.6:
-        t += "\n\n" + f"P2x{tag} " + words(rnd.randint(1, 20))
+        t += "\n\n" + f"{pre}P2x{tag} " + words2(rnd.randint(1, 20))
         if rnd.random() < 0.4:
-            t += "\n\n    code P2c" + tag + " " + words(3) + "\n    second " + "c" * rnd.randint(1, 70)
+            t += f"\n\n    {pre}code {pre}P2c" + tag + " " + words2(3) + f"\n    {pre}second {pre}" + "c" * rnd.randint(1, 70)
         if rnd.random() < 0.3:
-            t += "\n\n" + f"P2y{tag} " + words(rnd.randint(1, 8))
+            t += "\n\n" + f"{pre}P2y{tag} " + words2(rnd.randint(1, 8))
     return pe(t)
+
+
+def cuts(rnd, enc):
+    """character offsets at which the help text is handed to bpaf as separate fragments of one Doc (same text)"""
+    t = dec_text(enc)
+    # (not inside a preformatted block: a change of style in the middle of one is a different document)
+    n = t.index("\n\n    ") if "\n\n    " in t else len(t)
+    if n < 4 or rnd.random() < 0.5:
+        return []
+    # fragments start at the beginning of a word (a style change inside a word may be used as a break point)
+    starts = [i for i in range(1, n) if t[i - 1] in " \n" and t[i] not in " \n"]
+    if not starts:
+        return []
+    return sorted({rnd.choice(starts) for _ in range(rnd.randint(1, 3))})
+
+
+def dec_text(enc):
+    import urllib.parse
+    return urllib.parse.unquote(enc, errors="surrogateescape")
 
 
 def family(seed, n):
@@ -43,11 +69,13 @@ def family(seed, n):
             for it in lvl["named"]:
                 k += 1
                 it["help"] = text(rnd, f"n{k}")
+                it["help_cuts"] = cuts(rnd, it["help"])
                 if rnd.random() < 0.2:
                     it["longs"] = it["longs"] + []      # keep
             for p in lvl["tail"].get("items", []):
                 k += 1
                 p["help"] = text(rnd, f"p{k}")
+                p["help_cuts"] = cuts(rnd, p["help"])
             for c in lvl["tail"].get("cmds", []):
                 k += 1
                 c["help"] = text(rnd, f"c{k}")
@@ -83,16 +111,15 @@ def run(v):
             if x["kind"] == "short":
                 if not x["doc"].startswith("help"):
                     continue
+                # the short form is the full form without the later paragraphs of the item help texts - token for token
+                expect = [t for t in x["full"] if not t.startswith(LATER)]
                 p1 = [t for t in x["full"] if t.startswith("P1x")]
-                p2 = [t for t in x["full"] if t.startswith("P2x") or t.startswith("P2y") or t.startswith("P2c")]
-                # descriptions/headers/footers are not item help texts: only item markers are judged
-                p1 = [t for t in p1 if t[3] in "npcdhf"]
-                p2 = [t for t in p2 if t[3] in "npcdhf"]
-                y = {"kind": "short", "def": x["def"], "doc": x["doc"], "short": x["short"], "p1": p1, "p2": p2,
+                p2 = [t for t in x["full"] if t.startswith(LATER)]
+                y = {"kind": "short", "def": x["def"], "doc": x["doc"], "short": x["short"], "p1": p1, "p2": p2, "expect": expect,
                      "width": 100, "refs": "", "got": "", "lines": []}
                 ns += 1
             else:
-                y = dict(x, short=[], p1=[], p2=[])
+                y = dict(x, short=[], p1=[], p2=[], expect=[])
                 nw += 1
             recs.append(y)
             w.write(json.dumps(y) + "\n")
